@@ -267,7 +267,15 @@ def build_graph(gspec):
     names = list(gspec["names"])
     cols = M.graph_columns(len(names), gspec["npoints"])
     fn = ",".join(names) if gspec.get("as_string") else tuple(names)
-    return graph([list(c) for c in cols], field_names=fn, scale=gspec["scale"]), cols
+    lists = [list(c) for c in cols]
+    alias = gspec.get("alias")
+    if alias:
+        # two columns given as ONE list object (the line y = x; an error equal to its coordinate)
+        src, dst = alias
+        cols = [list(c) for c in cols]
+        cols[dst] = list(cols[src])
+        lists[dst] = lists[src]
+    return graph(lists, field_names=fn, scale=gspec["scale"]), cols
 
 
 def check_graph_scale(res, gspec, targets, via="method"):
@@ -940,6 +948,12 @@ def graph_specs(tier, scales=GRAPH_SCALES):
                     for as_string in (False, True):
                         out.append({"dim": dim, "names": list(names), "scale": sc, "npoints": n,
                                     "as_string": as_string})
+                    if n and len(names) >= 2:
+                        # the last coordinate's list object is also another column (first coordinate or
+                        # the first error field)
+                        other = 0 if dim >= 2 else dim
+                        out.append({"dim": dim, "names": list(names), "scale": sc, "npoints": n,
+                                    "as_string": False, "alias": [dim - 1, other]})
     return out
 
 
@@ -1117,6 +1131,17 @@ def run_shard(p, tier):
             for via in VIAS[1:]:
                 for t in targets[1:4]:
                     check_hist_scale(res, s, [t], via, False)
+        # contents and cell sizes of very small magnitude (exact powers of two): a scale that is tiny
+        # is not a zero scale
+        for spec in _mine(M.coded_specs(tier, dims=(1, 2)), p):
+            shape = M.shape_of(spec["edges"])
+            tiny_bins = M.nest([v * 2.0 ** -70 for v in R.flat(spec["bins"])], shape)
+            for t in targets[:3]:
+                check_hist_scale(res, {"edges": spec["edges"], "bins": tiny_bins, "n_out": 0}, [t],
+                                 "method", False)
+                for via in VIAS[1:]:
+                    check_hist_scale(res, {"edges": spec["edges"], "bins": tiny_bins, "n_out": 0}, [t],
+                                     via, False)
     elif law == "gscale":
         for gs in _mine(graph_specs(tier), p):
             for t in targets:
